@@ -3,6 +3,7 @@ package main
 import (
 	"net/netip"
 	"sort"
+	"strconv"
 	"strings"
 )
 
@@ -151,15 +152,15 @@ func (c *Case) routeConds(r RouteSpec, q ReqSpec) []condVal {
 	if len(r.FromUsers) > 0 {
 		add("fromUsers", vB(contains(r.FromUsers, q.User)).inv(r.InvFromUsers))
 	}
-	if len(r.FromPorts) > 0 || len(r.FromRanges) > 0 {
-		add("fromPorts", vB(portDenoted(r.FromPorts, r.FromRanges, q.SrcPort)).inv(r.InvFromPorts))
+	if len(r.FromPorts) > 0 || r.fromRangeString() != "" {
+		add("fromPorts", vB(portDenoted(r.FromPorts, r.fromItems(), q.SrcPort)).inv(r.InvFromPorts))
 	}
 	if len(r.FromPrefixes) > 0 || len(r.FromPfxSets) > 0 {
 		// (GeoIP source conditions cannot be loaded offline: configurations that have them are rejected at load)
 		add("fromPrefixes", vB(c.inPrefixes(r.FromPrefixes, r.FromPfxSets, netip.MustParseAddr(q.Src))).inv(r.InvFromPfx))
 	}
-	if len(r.ToPorts) > 0 || len(r.ToRanges) > 0 {
-		add("toPorts", vB(portDenoted(r.ToPorts, r.ToRanges, q.DstPort)).inv(r.InvToPorts))
+	if len(r.ToPorts) > 0 || r.toRangeString() != "" {
+		add("toPorts", vB(portDenoted(r.ToPorts, r.toItems(), q.DstPort)).inv(r.InvToPorts))
 	}
 	// destination kinds: OR
 	var kinds []vset
@@ -314,7 +315,7 @@ func (c *Case) judge(q ReqSpec, impl, route string) (key, detail string) {
 		// which route's undecidable condition was passed over or taken for a match
 		for i, cs := range trace {
 			if v := andConds(cs); len(v.E) > 0 && (!v.F || c.Routes[i].Name == route) {
-				return "silent-resolver-failure:" + notT(cs), detail
+				return keyOf("silent-resolver-failure", notT(cs)), detail
 			}
 		}
 		return "silent-resolver-failure", detail
@@ -323,13 +324,13 @@ func (c *Case) judge(q ReqSpec, impl, route string) (key, detail string) {
 			v := andConds(cs)
 			if c.Routes[i].Name == route {
 				if !v.T {
-					return "matched-despite:" + notT(cs), detail
+					return keyOf("matched-despite", notT(cs)), detail
 				}
 				break
 			}
 			if !v.F {
 				if len(v.E) > 0 {
-					return "silent-resolver-failure:" + notT(cs), detail
+					return keyOf("silent-resolver-failure", notT(cs)), detail
 				}
 				return "skipped-matching-route", detail
 			}
@@ -343,6 +344,14 @@ func (c *Case) judge(q ReqSpec, impl, route string) (key, detail string) {
 	}
 }
 
+// keyOf joins a kind and the attributed conditions (no dangling colon when nothing can be attributed)
+func keyOf(kind, conds string) string {
+	if conds == "" {
+		return kind
+	}
+	return kind + ":" + conds
+}
+
 func hasErr(outs map[string]bool) bool {
 	for o := range outs {
 		if strings.HasPrefix(o, "err ") {
@@ -351,3 +360,20 @@ func hasErr(outs map[string]bool) bool {
 	}
 	return false
 }
+
+// judgeLoad: a configuration whose port-range strings are malformed by the documented syntax must not load.
+func (c *Case) judgeLoad(loadResult string) (key, detail string) {
+	if loadResult != "ok" {
+		return "", ""
+	}
+	for _, r := range c.Routes {
+		for _, s := range []string{r.fromRangeString(), r.toRangeString()} {
+			if _, ok, dontCare := readRanges(s); !ok && !dontCare {
+				return "malformed-port-ranges-accepted", "route " + r.Name + ": port-range string " + strconvQuote(s) + " is malformed but the configuration loaded"
+			}
+		}
+	}
+	return "", ""
+}
+
+func strconvQuote(s string) string { return strconv.Quote(s) }
